@@ -834,6 +834,10 @@ struct MemEngine : Engine {
             if (edge_spec) bad = 'N';
         } else if (sc.op <= 3) {
             s.set("form", sc.form ? "ct" : "rt"); s.setu("n", sc.n); gs_indices(s, t, sc.n, sc.place, i, sc.op == 3); s.set("fault", "none");
+            if (sc.op == 2 && i % 3 == 2) {   // the gathered elements themselves hold special values (zero, all ones, sign bit, NaN ...)
+                const std::size_t spots[4] = {3 * PG - 256, 4 * PG, 4 * PG + 512, 1 * PG};
+                for (std::size_t sp : spots) { Step f; f.op = "fill"; f.setu("p", sp); f.setu("len", 256); f.setu("tag", i + sp); f.setu("cls", 6); f.setu("e", t->elem); out.steps.push_back(f); }
+            }
         } else if (sc.op == 4) { s.setu("n", t->width); place(s, t, t->width, false, false, sc.place ? "start_flush" : "end_flush", 3, 0, 'N'); }
         else if (sc.op >= 6) { s.setu("lane", sc.n); s.setu("tag", i + 99); }
         if ((sc.op == 0 || sc.op == 4) && i % 3 == 1) { Step f; f.op = "fill"; f.setu("p", s.unum("p")); f.setu("len", (std::uint64_t)t->width * t->elem); f.setu("tag", i + 11); f.setu("cls", 1 + i % 6); f.setu("e", t->elem); out.steps.push_back(f); }
@@ -924,6 +928,8 @@ struct MemEngine : Engine {
             } else if (w < 84 && t->has_gather) {
                 bool sc = r.chance(1, 2); s.op = sc ? "scatter" : "gather"; bool ct = r.chance(1, 3); if (ct && n > W) n = W;
                 s.set("form", ct ? "ct" : "rt"); s.setu("n", n); gs_indices(s, t, n, (unsigned)r.below(7), r.next() % 1000, sc);
+                if (!sc && r.chance(1, 3)) { const std::size_t spots[4] = {3 * PG - 256, 4 * PG, 4 * PG + 512, 1 * PG};
+                    for (std::size_t sp : spots) { Step f; f.op = "fill"; f.setu("p", sp); f.setu("len", 256); f.setu("tag", r.below(1u << 24)); f.setu("cls", 1 + r.below(6)); f.setu("e", t->elem); out.steps.push_back(f); } }
                 if ((fmask & 2) && sc && r.chance(1, 3)) { s.set("fault", "neigh"); s.setu("k", r.below(4096)); s.setu("ntag", r.below(1u << 20)); } else s.set("fault", "none");
             } else if (w < 88) { s.op = "fromarr"; s.setu("n", W); place(s, t, W, false, false, r.chance(1, 2) ? "end_flush" : "start_flush", 1 + (unsigned)r.below(6), 0, 'N'); }
             else if (w < 91) { s.op = "toarr"; }
